@@ -1,9 +1,15 @@
 package s0329
 
+type G1 struct {
+	F0x0 int32
+}
+
+type G2 struct {
+	F1x0 []int64
+}
 
 type T struct {
-	F0 *int32
-	F1 []int64
+	F0 G1
+	F1 []G2
 	F2 uint32
-	F3 []uint64
 }
